@@ -1166,3 +1166,46 @@ func init() {
 		return x.freshTerm("hex", SStr)
 	}
 }
+
+// ---------------- protobuf timestamps (gogoproto types): a time (unix nanoseconds) splits into whole seconds and the
+// nanosecond remainder, and is put together again; the range check of the real functions (years 1..9999) is outside the
+// model (A-ENV: block times lie in that range), so the error result of the conversion to a timestamp is nil and the one
+// of the conversion back is unconstrained (the code ignores it).
+func init() {
+	const gp = "github.com/cosmos/gogoproto/types."
+	theory[gp+"TimestampProto"] = func(x *Exec, f *Frame, st *State, c *CallInfo) Val {
+		t := c.T(0)
+		rt, _ := c.ResTyp.(*types.Tuple)
+		if t == nil || rt == nil || rt.Len() != 2 {
+			return x.freshVal(st, c.ResTyp, "timestamp")
+		}
+		pt, _ := types.Unalias(rt.At(0).Type()).Underlying().(*types.Pointer)
+		if pt == nil {
+			return x.freshVal(st, c.ResTyp, "timestamp")
+		}
+		s := SortOf(pt.Elem())
+		si, ni := -1, -1
+		if s != nil && s.Kind == KData {
+			si, ni = s.FieldIndex("Seconds"), s.FieldIndex("Nanos")
+		}
+		if si < 0 || ni < 0 {
+			return x.freshVal(st, c.ResTyp, "timestamp")
+		}
+		ts := WithField(WithField(ZeroOf(s), si, EDiv(t, IntLit(nanos))), ni, EMod(t, IntLit(nanos)))
+		o := x.newObj(pt.Elem(), "timestamp")
+		st.mem[o] = ts
+		x.assumed["A-ENV: block times lie within the protobuf timestamp range (years 1..9999)"] = true
+		return &TupleVal{[]Val{&PtrVal{Obj: o}, ErrNil}}
+	}
+	theory[gp+"TimestampFromProto"] = func(x *Exec, f *Frame, st *State, c *CallInfo) Val {
+		ts := c.T(0)
+		if ts == nil || ts.Sort.Kind != KData {
+			return x.freshVal(st, c.ResTyp, "time")
+		}
+		si, ni := ts.Sort.FieldIndex("Seconds"), ts.Sort.FieldIndex("Nanos")
+		if si < 0 || ni < 0 {
+			return x.freshVal(st, c.ResTyp, "time")
+		}
+		return &TupleVal{[]Val{Add(Mul(SelField(ts, si), IntLit(nanos)), SelField(ts, ni)), x.freshTerm("tserr", SErr)}}
+	}
+}
